@@ -252,6 +252,8 @@ def cases(rng, tier):
                 op = rc.op_append(rng, "%d" % rid, sz)
                 if trig[0] == 3 and rng.chance(1, 7):
                     op = [7, op[1]]        # the roller is set to fail for this call (time trigger: pre-processing)
+                elif rng.chance(1, 9) and not nested:
+                    op = [12, op[1]]       # the roller rotates and THEN reports failure
                 if nested and trig[0] != 3 and rng.chance(1, 3):
                     # the encoder / the roller of this call appends a record to a second rolling appender
                     op = [10, op[1], rc.rec_bytes(rng, "s%d" % rid, rng.range(4, 9)), rng.choice([1, 1, 2])]
